@@ -6,6 +6,7 @@ import (
 	"time"
 
 	"github.com/superfly/litefs/verifharness/core"
+	"github.com/superfly/litefs/verifharness/faults"
 	"github.com/superfly/litefs/verifharness/multidb"
 	"github.com/superfly/litefs/verifharness/repl"
 	"github.com/superfly/litefs/verifharness/t3"
@@ -31,6 +32,8 @@ func main() {
 	multidb.Stage(rep, args)
 	commitDuringJoin(rep)
 	shmWriteBack(rep)
+	// failure paths on the replica (spec/Faults.tla): one call of the apply of a streamed file / a snapshot fails
+	faults.Run(rep, args, faults.Select{Ops: []string{"replica_apply", "replica_snapshot"}, Monitors: []string{"replica-image"}})
 	if only == "" {
 		t3.Stage(rep, args, map[string]bool{"C01": true})
 	}
